@@ -10,6 +10,7 @@ from .. import coqio
 from ..common import Check, ct, run_cases_sharded
 from ..conntrace import coq_msg
 from ..subharness import canon_value, class_info
+from ..subharness import typed_decoding as _typed
 from ..translate import split_sfv
 
 PROP_FILE = "Properties/C07.v"
@@ -59,6 +60,29 @@ def run_case(case, infos, devs):
                     continue
                 v = AS.valid_value(rng, ff[0])
                 s.dev.emit_at(rng.randrange(0, 12_000_000), f"@{cid}:{fn}={v}\r\n".encode("utf-8"))
+        wrng = random.Random(case["seed"] ^ 0x3717E5)
+        if wrng.random() < 0.3:
+            # earlier in this process the application wrote values through ANOTHER object of each class (an earlier
+            # session, another receiver): one valid value per writable function, decoded from a valid text of the
+            # function, on a capturing connection.  What was written there plays no part in what this start-up reads.
+            case["earlier_writes_in_process"] = True
+            from ynca.function import Cmd as _Cmd
+
+            from ..subharness import make_connection, typed_decoding
+
+            for cls_, cid_, funcs_ in infos:
+                try:
+                    other = cls_(make_connection())
+                except Exception:  # noqa
+                    continue
+                for attr_, f_ in funcs_:
+                    if _Cmd.PUT not in f_.cmd:
+                        continue
+                    for _rep in range(2):
+                        try:
+                            setattr(other, attr_, typed_decoding(f_.converter, AS.valid_value(wrng, f_)))
+                        except Exception:  # noqa: C05's matter
+                            pass
         if case.get("check_first"):
             # the application first asks the same object whether this is a YNCA device at all
             try:
@@ -133,7 +157,7 @@ def monitor_dual(s, case, infos, rxs):
             for attr, f in funcs:
                 if f.name in rx.store.get(cid, {}) and not f.no_initialize:
                     try:
-                        exp = canon_value(f.converter.to_value(rx.store[cid][f.name]))
+                        exp = canon_value(_typed(f.converter, rx.store[cid][f.name]))
                     except Exception:  # noqa
                         continue
                     got = rec["values"][cid].get(f.name)
@@ -188,7 +212,7 @@ def monitor(s, case, infos):
             key = (cid, f.name)
             if key in last and last[key][0] > born:
                 try:
-                    exp = canon_value(f.converter.to_value(last[key][1]))
+                    exp = canon_value(_typed(f.converter, last[key][1]))
                 except Exception:  # noqa
                     continue
                 got = s.values[cid].get(f.name)
